@@ -306,6 +306,8 @@ void add_type(Node *node) {
       error_tok(node->cas_addr->tok, "atomic operations on objects larger than 8 bytes are not supported");
     if (!is_numeric(node->cas_addr->ty->base) && !node->cas_addr->ty->base->base)
       error_tok(node->cas_addr->tok, "atomic operations on aggregates are not supported");
+    if (node->cas_old->ty->base->size != node->cas_addr->ty->base->size)
+      error_tok(node->cas_old->tok, "the expected value must have the size of the atomic object");
 
     // The desired value is converted to the type of the object.
     node->cas_new = new_cast(node->cas_new, node->cas_addr->ty->base);
